@@ -4,6 +4,7 @@ replayed call by call on the real snapshots.Store by harness/cmd/store."""
 import json
 import vlib
 import storelib as S
+import restartlib
 
 RULE = ("TLC checks OnlyWhenAllAcked / PublishedWhole / PublishedOnce / AtMostOnePending / IdsStrictlyIncrease of Store.tla over every call "
         "string (create, savepoint, operator/runner acks with any id and any sender, async publication steps, restart) "
@@ -11,11 +12,16 @@ RULE = ("TLC checks OnlyWhenAllAcked / PublishedWhole / PublishedOnce / AtMostOn
         "on the real snapshots.Store over a gated StorageLocation; published files are decoded and compared with what the "
         "property demands after every call; concurrent entry: the schedules of a store that releases its lock between an "
         "acknowledgement's bookkeeping and finishSnapshot (Pre_AckUnlocked) are forced onto the real store from several "
-        "goroutines with the splitter's Checkpoint() held -- the store must serialise them or publish every id at most once")
+        "goroutines with the splitter's Checkpoint() held -- the store must serialise them or publish every id at most once; "
+        "late acknowledgements of the previous assembly (Restart.tla): the outstanding acknowledgements of a checkpoint that was pending "
+        "when a member was lost are delivered to the real jobs.Job at every point of the following start() and after it - they must not "
+        "complete that checkpoint (NoOldAssemblyPublication)")
 
 
 def run(c):
     quick = c.tier == "quick"
+    # 0. the job's side of "late acknowledgements never complete it": a checkpoint of the previous assembly, real jobs.Job (spec/Restart.tla)
+    restartlib.single_cut_arm(c, c.tier, "C12", families=("late",))
     c.assumptions.append("ids handed out before a restart but never published are not durable anywhere; 'ids strictly increase across "
                          "restarts' is checked against every id handed out in the same store incarnation and every id ever published to the storage")
     # 1. the repaired design satisfies the properties for every call string within the bounds
@@ -73,4 +79,7 @@ def run(c):
 
 
 def replay(c, path):
+    if restartlib.is_restart_file(json.load(open(path))):
+        restartlib.replay(c, path)
+        return
     S.replay_file(c, path)
